@@ -165,8 +165,11 @@ fn mutate_au(src: &mut Src, ctx: &mut RunCtx) -> Vec<u8> {
             ctx.count("fault:garbage");
         }
         5 => {
+            // Any of the fields size / encoding / rate / channels / annotation,
+            // set to an arbitrary or to a boundary value (0 is the divisor
+            // nobody expects).
             let f = src.range(2, 6) * 4;
-            let v = src.bits() as u32;
+            let v = if src.coin() { src.bits() as u32 } else { *src.pick(&[0u32, 1, 2, 3, 0xffff_ffff, 0x8000_0000, 44099, 44101]) };
             b[f..f + 4].copy_from_slice(&v.to_be_bytes());
             ctx.count("fault:field_mutation");
         }
